@@ -28,6 +28,23 @@ MANIFEST = dict(
          "list and drops NO_PYFRAME leaves every existing scope map and failed-branch list untouched, for "
          "any heap, any inner spec (children, Coalesce, tuple chains, further re-entries) -- and the "
          "counter-examples by decide when it does not (the caller's trace grows a branch; IndexError); "
+         "(c20_reentry_trace_alone, c20_reentry_inner_irrelevant) the WHOLE call -- value, or error and the trace "
+         "rendered from the bookkeeping, every line, branch and depth -- is exactly that of the same call in which no "
+         "inner call is made, for any outer spec and any covered re-entries anywhere in it to any depth (simulation up "
+         "to an injection of addresses; the handler's NO_PYFRAME walk and _unpack_stack terminate within the model's "
+         "fuel because parents are older, children and failed branches younger than a scope); (c20_reentry_depth) n "
+         "re-entries inside one another, for every n; "
+         "(c20_err_render_reference, c20_err_history_independent, c20_err_render_idempotent, "
+         "c20_err_shows_enclosing_call, c20_err_nested_depth, c20_err_model_checks) the ERROR OBJECT as a state machine "
+         "(its __dict__: __wrapped, _scope, _tb_lines and the caches _finalized_str, _target_spec_trace; operations: "
+         "__str__, copy.copy carrying the __dict__ / TypeMatchError.__copy__ / GlomError.wrap, the handler of glom() "
+         "with err = copy | err = e | wrap, _set_wrapped, _finalize, which renders the exception being handled into "
+         "_tb_lines): for any source whose _finalize resets every cache its __str__ reads, and any history of renders, "
+         "copies and exits of glom() calls to any nesting depth, EVERY render returns the message of a cache-free "
+         "reference (a function of the last finalization only); the message after any interleaving of renders equals "
+         "the one computed by a single render at the end; the enclosing call's error shows the enclosing call's trace; "
+         "counter-examples by decide for a cache that is read and not reset (seeded change C20-s8; glom before the "
+         "reset) and for the forced hypothesis on errors finalized in place; "
          "(c20_argval_fresh, c20_arg_noninterference, c20_arg_as_alone) ONE spec object with a container literal in "
          "ARGUMENT position (S(acc=[]), Coalesce(default=[]), T.get(k, {}), Call args, Assign value, Or / Optional / "
          "Check / Switch defaults) used by several calls: _ArgValuator.mode modelled on an object heap (the literal "
@@ -41,12 +58,23 @@ MANIFEST = dict(
          "state in any function of glom, the fresh dict literals of glom()/_glom, registry methods on the "
          "evaluation path write only _type_cache; Spec.glom and glom() reset, AFTER merging the scope they are "
          "handed, every bookkeeping key the exception handler of _glom writes or tests and the parent link, "
-         "CHILD_ERRORS to a fresh list, Path to a copy); model tied to the code by a deterministic scheduler that "
+         "CHILD_ERRORS to a fresh list, Path to a copy; c20_err_facts_wf: the mutable attributes of a GlomError, what "
+         "__str__ reads before it writes (path-sensitive dataflow over its AST), what _finalize assigns unconditionally, "
+         "no __str__ override, the only copy override builds a fresh instance, the statements of glom()'s handler, wrap "
+         "and _set_wrapped); model tied to the code by a deterministic scheduler that "
          "ENUMERATES all interleavings of 2-3 real glom calls at user-callable granularity, free-running "
          "threads under a 1e-6 switch interval, glom-inside-callable nestings to depth 3, and randomised "
          "re-entries with access to the running scope whose full rendered error trace is compared with the "
          "same call where the inner call is made in isolation (and, where the model can express the call, "
-         "with the trace skeleton the Lean model of the bookkeeping renders); and randomised shared-argument cases "
+         "with the trace skeleton the Lean model of the bookkeeping renders) -- in all nested / re-entry cases every "
+         "handler that sees an exception in flight (the except handler of the callable that made the inner call, a "
+         "probe spec at any position of the outer spec, a later callable looking at errors that were kept) renders it "
+         "0-2 times in one of six ways (str, %s, format_exception_only, format_exception, logging, repr), lets it go "
+         "on as it is / as a copy / keeps it; the reference run has the same handlers, nobody renders, and the inner "
+         "exception is handed over exactly as the isolated call raised it (never rendered); every message any handler "
+         "read is compared with the message that call's error shows alone (checkErrHist), and the logged history of the "
+         "error objects is replayed by the Lean state machine with the caches the current source has; "
+         "and randomised shared-argument cases "
          "(literal heaps x 12 argument positions x push/yield programs x interleavings, re-entry, sequential reuse, "
          "free-running) whose reads and whose literal afterwards are compared with the calls alone AND with the Lean "
          "heap model run under the same schedule.",
@@ -58,8 +86,9 @@ MANIFEST = dict(
          "counter-example theorem). Trusted: Lean kernel + {propext, Classical.choice, Quot.sound}; extractor; "
          "harness scheduler/driver.",
     technique='Lean 4 invariant proof over all schedules (interleaving semantics, monotone shared state) + '
-              'heap frame condition for nested calls + facts obligation by decide + enumerated-interleaving '
-              'differential correspondence',
+              'heap frame condition for nested calls + simulation up to an injection of addresses (the trace does not '
+              'see inner calls) + refinement of a cached state machine by its cache-free reference (error object) + '
+              'facts obligations by decide + enumerated-interleaving differential correspondence',
     ref='DESIGN.md §3 C20')
 RULE = ('calls are drawn from templates that make leakage visible: dotted string paths (cold path cache, '
         'texts shared between threads and private ones), S/A scope writes read back later, Fold and Group '
@@ -87,6 +116,17 @@ RULE = ('calls are drawn from templates that make leakage visible: dotted string
         'trace (addresses masked, traceback source lines removed); expected: the same outer call in which every '
         'inner call is replaced by the outcome it has in isolation (made the same way from a top-level / trivial '
         'call with the same user variables and position); inner outcomes nested vs isolated are compared too; '
+        'RENDERING IN FLIGHT (all nested / reent cases): every handler that holds an in-flight exception -- the except '
+        'handler of the callable / custom spec that made the inner call (obs of the node), a probe spec wrapped around any '
+        'sub-spec (sees errors of this call before they are finalized and errors of re-entrant calls on their way up), a '
+        'later callable (late) and the end of the call for errors that were kept -- renders it 0 (25%), 1 or 2 times by '
+        'str / %s / traceback.format_exception_only / format_exception / logging.Formatter.formatException / repr, and lets '
+        'it go on as it is, as copy.copy of it, or keeps it; inner failures are PathAccessError, CoalesceError, a wrapped '
+        'ValueError (copies carry the __dict__), TypeMatchError (fresh copy), a user GlomError whose constructor takes its '
+        'args, and one whose constructor does not (glom() finalizes the object itself, again in every enclosing call); the '
+        'reference run has the same handlers but nobody renders, and the inner exception is raised exactly as the isolated '
+        'call raised it, never rendered; the outer error is rendered, kept errors and unread inner errors are rendered, the '
+        'outer error is rendered again; expected: every message read of the error of call c = the message of c alone; '
         'SHARED ARGUMENT (mode shared, spec kind accum; randomised and type-directed): ONE spec object with a container '
         'literal in argument position -- the literal is a random object heap (root list / dict / set / tuple; each '
         'container empty (45%) or 1-3 items: constants, T leaves, nested containers to depth 2, a second reference to an '
@@ -106,7 +146,12 @@ RULE = ('calls are drawn from templates that make leakage visible: dotted string
 TRUSTED = ["CPython: a single dict lookup / store is atomic under the GIL; sys.exc_info() and the Python call "
            "stack are per thread (assumed)",
            "the harness scheduler (threading.Semaphore handshakes; one runnable call at a time between yield points)"]
-ASSUMPTIONS = ['no registration (glom.register / register_op) runs concurrently with glom calls',
+ASSUMPTIONS = ['error objects: an error finalized IN PLACE (copy.copy cannot re-create its class) was not finalized as a copy '
+               'before (user code does not raise a dict-carrying copy of an in-place class through another glom call); the '
+               'message of an error that is not finalized is get_message() and is compared only by kind: a CoalesceError / '
+               'CheckError of the running call keeps the live scope[Path] list, which later chain steps of the same call '
+               'extend in place (reported as a side finding, no other call involved)',
+               'no registration (glom.register / register_op) runs concurrently with glom calls',
                'PATH_STAR = True', 'user callables inside the specs do not share mutable state between calls',
                'what is in argument position and is not a list / dict / set / tuple / frozenset (a constant object, a Val) is '
                'handed out as it is, by design: only the five container types are rebuilt per call',
@@ -193,6 +238,94 @@ def outcome_of(fn):
     return {'val': _ADDR.sub('0x?', repr(r))}, None
 
 
+def raw_call(fn):
+    """(value, None) / (None, exception): the exception is handed back untouched -- NOT rendered"""
+    try:
+        return fn(), None
+    except Exception as e:
+        return None, e
+
+
+# ----------------------------------------------------------------------------- rendering an in-flight exception
+
+# the ways user code renders an exception it sees; what it reads of the message
+RENDERS = ['str', 'pct', 'fmtonly', 'fmt', 'log', 'repr']
+
+
+def _after_class(s):
+    """'pkg.Class: message' -> 'message'"""
+    i = s.find(': ')
+    return s[i + 2:] if i >= 0 else None
+
+
+def _tail_message(s):
+    """the message part of a formatted traceback: what follows the stack of its LAST block"""
+    head = 'Traceback (most recent call last):\n'
+    i = s.rfind(head)
+    if i < 0:
+        return None
+    lines = s[i + len(head):].split('\n')
+    k = 0
+    while k < len(lines) and lines[k].startswith('  '):
+        k += 1
+    return _after_class('\n'.join(lines[k:]))
+
+
+def render_with(e, how):
+    """user code renders the exception `e`; -> the message it read (None: this way of rendering
+    does not show the message as such)"""
+    import logging
+    import traceback
+    if how == 'str':
+        return str(e)
+    if how == 'pct':
+        return '%s' % (e,)
+    if how == 'repr':
+        repr(e)
+        return None
+    if how == 'fmtonly':
+        return _after_class(''.join(traceback.format_exception_only(type(e), e)))
+    if how == 'fmt':
+        return _tail_message(''.join(traceback.format_exception(type(e), e, e.__traceback__)))
+    if how == 'log':
+        return _tail_message(logging.Formatter().formatException((type(e), e, e.__traceback__)))
+    raise ValueError(how)
+
+
+def user_error_classes():
+    """GlomError subclasses as user code defines them: one whose constructor takes what `args` holds
+    (copy.copy re-creates it), one whose constructor does not (copy.copy fails: glom() finalizes the
+    exception object itself, again in every enclosing call)"""
+    import glom
+    if 'ok' not in _UCLS:
+        class Rejected(glom.GlomError):
+            def __init__(self, msg):
+                super().__init__(msg)
+
+        class Odd(glom.GlomError):
+            def __init__(self, a, b):
+                super().__init__('%s/%s' % (a, b))
+        _UCLS['ok'], _UCLS['bad'] = Rejected, Odd
+    return _UCLS
+
+
+_UCLS = {}
+
+
+class RaiseG:
+    """a callable that raises a GlomError subclass defined by the user"""
+
+    def __init__(self, kind):
+        self.kind = kind
+
+    def __call__(self, x):
+        cls = user_error_classes()[self.kind]
+        raise cls('rejected') if self.kind == 'ok' else cls('odd', 1)
+
+    def __repr__(self):
+        return 'RaiseG_%s' % self.kind
+
+
 # ----------------------------------------------------------------------------- scheduler
 
 class Sched:
@@ -237,6 +370,106 @@ class Ctx:
         self.inner = {}                                      # nested call id -> (outcome, exception) as observed
         self.paths = {}                                      # re-entry id -> scope[Path] of the running call there
         self.uvars = {}                                      # re-entry id -> the user's scope variables visible there
+        # --- the history of the error objects, as user code and the harness see it
+        self.reference = False       # the reference run: nobody renders an exception in flight
+        self.hist = []               # ['render', e, text|None] | ['ucopy', src, dst, kind] | ['exit', lvl, e, out, kind, cls]
+        self.objs = []               # the exception objects, by identity, in first-seen order (kept alive)
+        self.nexit = 0               # glom() calls that ended with an error so far
+        self.fin = {}                # object id -> the glom() call that finalized it last
+        self.ref = []                # [lvl, index of the call among the compared calls]
+        self.call_index = {}         # nested call id -> index of the call among the compared calls
+        self.kept = []               # errors user code kept (seen again by a later callable, and at the end)
+        self.pending = {}            # nested call id -> (exception, lvl) whose message has not been read in flight
+        self.unread = set()          # nested calls that failed and whose message nobody could read as it was
+
+    # ---- error objects
+    def eid(self, e):
+        for i, o in enumerate(self.objs):
+            if o is e:
+                return i
+        self.objs.append(e)
+        return len(self.objs) - 1
+
+    def exited(self, e_out, nid=None):
+        """a glom() call made by the harness ended by raising `e_out`: log what its handler did
+        (copy / the same object / wrap; `_finalize`), recovered from the object itself"""
+        import glom
+        if not isinstance(e_out, glom.GlomError) or e_out.__dict__.get('_scope') is None:
+            return None                                # not finalized: wrapping failed, or glom_debug
+        e_in = e_out.__dict__.get('_GlomError__wrapped', e_out)
+        self.nexit += 1
+        kind = 'same' if e_in is e_out else 'copy' if isinstance(e_in, glom.GlomError) else 'wrap'
+        a, b = self.eid(e_in), self.eid(e_out)
+        self.hist.append(['exit', self.nexit, a, b, kind, type(e_in).__name__])
+        self.fin[b] = self.nexit
+        if nid in self.call_index:
+            self.ref.append([self.nexit, self.call_index[nid]])
+        return self.nexit
+
+    def render(self, e, how):
+        text = render_with(e, how)
+        text = None if text is None else norm_text(text)
+        self.hist.append(['render', self.eid(e), text])
+        return text
+
+    def observe(self, e, obs):
+        """an observation point: user code holds the in-flight exception `e` (the `except` handler of
+        a callable, a custom spec); what it does with it is `obs`: render it (any ways, any number of
+        times), keep it for later.  -> the first message it read (None: none).  The reference run
+        has the same handlers, but nobody renders."""
+        first = None
+        if obs and not self.reference:
+            for how in obs.get('render', []):
+                t = self.render(e, how)
+                if first is None:
+                    first = t
+            if obs.get('prop') == 'keep':
+                self.kept.append(e)
+        return first
+
+    def propagate(self, e, obs):
+        """how the handler lets the exception go on: as it is, or as a copy of it"""
+        if obs and obs.get('prop') == 'copy':
+            try:
+                c = copy.copy(e)
+                if c.args != e.args or type(c) is not type(e):
+                    c = None
+            except Exception:
+                c = None
+            if c is not None:
+                kind = 'carry' if set(c.__dict__) >= set(e.__dict__) else 'fresh'
+                self.hist.append(['ucopy', self.eid(e), self.eid(c), kind])
+                raise c
+        raise e
+
+    def render_kept(self):
+        """a later callable (or the end of the call) looks at the errors that were kept"""
+        if not self.reference:
+            for e in self.kept:
+                self.render(e, 'str')
+
+    def inner_failed(self, nid, e, obs):
+        """the inner call `nid`, made from a callable, raised `e`: the handler of the callable"""
+        lvl = self.exited(e, nid)
+        first = self.observe(e, obs)
+        if first is not None:
+            self.inner[nid] = ({'err': [exc_name(e), first]}, e, None)
+        else:
+            self.pending[nid] = (e, lvl)
+
+    def settle(self):
+        """the end of the outer call: user code renders what it kept; the harness reads the message of
+        every inner error nobody read in flight (unless an enclosing call has finalized that very
+        object again: then it IS the outer error now)"""
+        self.render_kept()
+        for nid, (e, lvl) in list(self.pending.items()):
+            if self.reference:
+                continue
+            if self.fin.get(self.eid(e)) == lvl:      # (None == None: not finalized then, not finalized since)
+                self.inner[nid] = ({'err': [exc_name(e), self.render(e, 'str')]}, e, None)
+            else:
+                self.unread.add(nid)
+        self.pending = {}
 
     def yield_point(self, idx):
         if self.logs is not None:
@@ -346,37 +579,53 @@ class Boom:
         return 'Boom'
 
 
+def stub_outcome(ctx, nid):
+    """the reference run: the inner call is not made; the outcome it has in isolation is a constant
+    -- its value, or its exception exactly as the isolated call raised it (never rendered)"""
+    out, pristine = ctx.stubs[nid]
+    if 'err' in out:
+        raise pristine()
+    return ctx.stub_values[nid]
+
+
 class Nested:
-    """a callable that calls glom() itself"""
+    """a callable that calls glom() itself; `call['obs']`: what its `except` handler does with the
+    error of the inner call before the error goes on"""
+
+    swallow = False         # (the isolated run: the error stays with the handler, no enclosing call touches it)
 
     def __init__(self, ctx, nid, call):
         self.ctx, self.nid, self.call = ctx, nid, call
 
-    def __call__(self, x):
+    def make(self, x, scope):
         import glom
-        ctx = self.ctx
-        if ctx.stubs is not None:                 # the call "run alone": the inner outcome is a constant
-            out, exc = ctx.stubs[self.nid]
-            if exc is not None:
-                raise copy.copy(exc)
-            return ctx.stub_values[self.nid]
         target = dec(self.call['target']) if 'target' in self.call else x
-        spec = build(self.call['spec'], ctx)
+        return glom.glom(target, build(self.call['spec'], self.ctx))
+
+    def __call__(self, x, scope=None):
+        ctx = self.ctx
+        obs = self.call.get('obs')
+        if ctx.stubs is not None:                 # the call "run alone": the inner outcome is a constant
+            try:
+                return stub_outcome(ctx, self.nid)
+            except Exception as e:
+                ctx.observe(e, obs)
+                ctx.propagate(e, obs)
         if ctx.logs is not None:
             ctx.logs.append([])
-        holder = {}
-
-        def run():
-            holder['v'] = glom.glom(target, spec)
-            return holder['v']
-        out, exc = outcome_of(run)
+        v, exc = raw_call(lambda: self.make(x, scope))
         if ctx.logs is not None:
             evs = ctx.logs.pop()
-            ctx.logs[-1].append(['nested', evs, out])
-        ctx.inner[self.nid] = (out, exc, holder.get('v'))
-        if exc is not None:
-            raise exc
-        return holder['v']
+            # (the log of the alone run feeds the cache model: the message is not part of it)
+            ctx.logs[-1].append(['nested', evs, {'val': _ADDR.sub('0x?', repr(v))} if exc is None
+                                 else {'err': [exc_name(exc), '']}])
+        if exc is None:
+            ctx.inner[self.nid] = ({'val': _ADDR.sub('0x?', repr(v))}, None, v)
+            return v
+        ctx.inner_failed(self.nid, exc, obs)
+        if self.swallow:
+            return None
+        ctx.propagate(exc, obs)
 
     def __repr__(self):
         return 'N%d' % self.nid
@@ -386,31 +635,9 @@ class NestedS(Nested):
     """a spec that evaluates its inner spec through `Spec(inner).glom(target, scope=S)` — the way
     `First` re-enters glom with the *running* scope passed in"""
 
-    def __call__(self, x, scope=None):
+    def make(self, x, scope):
         import glom
-        ctx = self.ctx
-        if ctx.stubs is not None:
-            out, exc = ctx.stubs[self.nid]
-            if exc is not None:
-                raise copy.copy(exc)
-            return ctx.stub_values[self.nid]
-        target = dec(self.call['target'])
-        spec = build(self.call['spec'], ctx)
-        if ctx.logs is not None:
-            ctx.logs.append([])
-        holder = {}
-
-        def run():
-            holder['v'] = glom.Spec(spec).glom(target, scope=scope)
-            return holder['v']
-        out, exc = outcome_of(run)
-        if ctx.logs is not None:
-            evs = ctx.logs.pop()
-            ctx.logs[-1].append(['nested', evs, out])
-        ctx.inner[self.nid] = (out, exc, holder.get('v'))
-        if exc is not None:
-            raise exc
-        return holder['v']
+        return glom.Spec(build(self.call['spec'], self.ctx)).glom(dec(self.call['target']), scope=scope)
 
     def __repr__(self):
         return 'NS%d' % self.nid
@@ -455,16 +682,17 @@ class Reenter:
     def inner_call(self, scope):
         import glom
         ctx, how = self.ctx, self.how
+        obs = self.d.get('obs')
         if ctx.stubs is not None:
-            out, exc = ctx.stubs[self.nid]
-            if exc is not None:
-                raise exc.with_traceback(None)      # the very exception the isolated call ended with
-            return ctx.stub_values[self.nid]
+            try:
+                return stub_outcome(ctx, self.nid)
+            except Exception as e:
+                ctx.observe(e, obs)
+                ctx.propagate(e, obs)
         target = dec(self.call['target'])
         spec = self.inner_spec
         if ctx.logs is not None:
             ctx.logs.append([])
-        holder = {}
         try:                                  # "where am I" of the running call: data a passed scope carries
             ctx.paths[self.nid] = list(scope[glom.Path])
         except (KeyError, TypeError):
@@ -473,28 +701,28 @@ class Reenter:
 
         def run():
             if how == 'none':
-                holder['v'] = glom.glom(target, spec)
+                return glom.glom(target, spec)
             elif how == 'user':
-                holder['v'] = glom.glom(target, spec, scope=user_vars(scope))
+                return glom.glom(target, spec, scope=user_vars(scope))
             elif how == 'copy':
-                holder['v'] = glom.Spec(spec).glom(target, scope=dict(scope))
+                return glom.Spec(spec).glom(target, scope=dict(scope))
             elif how == 'run':
-                holder['v'] = glom.Spec(spec).glom(target, scope=scope)
+                return glom.Spec(spec).glom(target, scope=scope)
             elif how == 'kwrun':
-                holder['v'] = glom.glom(target, spec, scope=scope)
+                return glom.glom(target, spec, scope=scope)
             elif how == 'kwcopy':
-                holder['v'] = glom.glom(target, spec, scope=dict(scope))
-            else:
-                raise ValueError(how)
-            return holder['v']
-        out, exc = outcome_of(run)
+                return glom.glom(target, spec, scope=dict(scope))
+            raise ValueError(how)
+        v, exc = raw_call(run)
         if ctx.logs is not None:
             evs = ctx.logs.pop()
-            ctx.logs[-1].append(['nested', evs, out])
-        ctx.inner[self.nid] = (out, exc, holder.get('v'))
-        if exc is not None:
-            raise exc
-        return holder['v']
+            ctx.logs[-1].append(['nested', evs, {'val': _ADDR.sub('0x?', repr(v))} if exc is None
+                                 else {'err': [exc_name(exc), '']}])
+        if exc is None:
+            ctx.inner[self.nid] = ({'val': _ADDR.sub('0x?', repr(v))}, None, v)
+            return v
+        ctx.inner_failed(self.nid, exc, obs)
+        ctx.propagate(exc, obs)
 
     def _do(self, target, scope, as_spec):
         import glom
@@ -523,6 +751,42 @@ class ReenterFn(Reenter):
 
     def __call__(self, target, scope):
         return self._do(target, scope, False)
+
+
+class Probe:
+    """a custom spec that evaluates `sub` the ordinary way, as a child of the running scope, inside a
+    `try`: an observation point for whatever exception is in flight at this position of the spec --
+    raised by a step of this very call (not finalized yet), or the error of a re-entrant call on its
+    way up"""
+
+    def __init__(self, ctx, pid, obs, sub):
+        self.ctx, self.pid, self.obs, self.sub = ctx, pid, obs, sub
+
+    def glomit(self, target, scope):
+        import glom
+        try:
+            return scope[glom.glom](target, self.sub, scope)
+        except Exception as e:
+            self.ctx.observe(e, self.obs)
+            raise
+
+    def __repr__(self):
+        return 'PR%d' % self.pid
+
+
+class Late:
+    """a callable that looks at the errors earlier handlers kept (errors a Coalesce has skipped
+    since, errors of finished inner calls) and renders them"""
+
+    def __init__(self, ctx, idx):
+        self.ctx, self.idx = ctx, idx
+
+    def __call__(self, x):
+        self.ctx.render_kept()
+        return x
+
+    def __repr__(self):
+        return 'Late%d' % self.idx
 
 
 # ----------------------------------------------------------------------------- container literals in argument position
@@ -725,6 +989,12 @@ def build(sj, ctx):
         return Match({key: {'int': int, 'str': str}[v] for key, v in sj[1]})
     if k == 'boom':
         return Boom()
+    if k == 'raiseg':
+        return RaiseG(sj[1])
+    if k == 'probe':
+        return Probe(ctx, sj[1], sj[2], build(sj[3], ctx))
+    if k == 'late':
+        return Late(ctx, sj[1])
     if k == 'val':
         return Val(dec(sj[1]))
     if k == 'raw':
@@ -1145,55 +1415,100 @@ def run_impl(case):
     return out
 
 
+def strip_obs(sj):
+    """the spec with nobody looking at exceptions: handlers keep their shape (try / re-raise), the
+    `obs` of every nested call, re-entry and probe is dropped"""
+    if isinstance(sj, list):
+        return [strip_obs(x) for x in sj]
+    if isinstance(sj, dict):
+        return {k: strip_obs(v) for k, v in sj.items() if k != 'obs'}
+    return sj
+
+
+def isolated_result(c2, nid):
+    """(value, exception) of the inner call `nid` as the context `c2` saw it; the exception untouched"""
+    if nid in c2.pending:
+        return None, c2.pending[nid][0]
+    if nid not in c2.inner:
+        raise RuntimeError('isolated inner call %d was not made' % nid)
+    _, exc, val = c2.inner[nid]
+    return val, exc
+
+
+def isolated_nested(nid, call, kind):
+    """the inner call of a nesting made in isolation: at top level, or -- re-entry through
+    Spec(inner).glom(target, scope=S) evaluates inside the scope it is given and is not a glom() call
+    of its own (no trace of its own, exceptions are not wrapped) -- from a trivial outer call.
+    -> (value, exception); the exception is NOT rendered"""
+    import glom
+    c2 = Ctx(0)
+    call = {k: v for k, v in call.items() if k != 'obs'}
+    if kind == 'specglom':
+        ns = NestedS(c2, nid, call)
+        ns.swallow = True
+        raw_call(lambda: glom.glom(None, glom.Call(ns, args=(glom.T,), kwargs={'scope': glom.S})))
+    else:
+        n = Nested(c2, nid, call)
+        raw_call(lambda: n(None))
+    return isolated_result(c2, nid)
+
+
+def outcome_from(v, exc):
+    if exc is not None:
+        return {'err': [exc_name(exc), norm_text(str(exc))]}
+    return {'val': _ADDR.sub('0x?', repr(v))}
+
+
+def observed_call(ctx, fn):
+    """the outer call as it is, its error history logged: -> outcome.  The error is rendered, then
+    user code and the harness look at what was kept / not read yet (`settle`), then the error is
+    rendered again"""
+    v, exc = raw_call(fn)
+    if exc is None:
+        ctx.settle()
+        return {'val': _ADDR.sub('0x?', repr(v))}
+    ctx.exited(exc, 'outer')
+    text = ctx.render(exc, 'str')
+    ctx.settle()
+    ctx.render(exc, RENDERS[len(ctx.hist) % 4])         # str / pct / fmtonly / fmt
+    return {'err': [exc_name(exc), text]}
+
+
 def run_nested(case, out, threads_payload, alone_ctxs):
     """one outer call with glom-inside-callable nestings.  calls[0] is the outer call; the inner
     calls are observed (a) nested, as they ran inside the outer call, and (b) alone at top level;
-    the outer call is compared with itself where every inner call is replaced by its alone outcome."""
+    the outer call is compared with itself where every inner call is replaced by its alone outcome
+    and nobody renders an exception in flight."""
     import glom
     outer = case['calls'][0]
     inner = nested_ids(outer['spec'], [])
-    outer_ctx = alone_ctxs[0]
     payload = [threads_payload[0]]
     outs = []
     # (b) each inner call alone at top level
     alone_inner = {}
     stub_values = {}
+    call_index = {'outer': 0}
     kinds = dict(nested_kinds(outer['spec'], []))
     for nid, call in inner:
         if 'target' not in call:
             continue
-        log, o, ctx = run_alone(call, 0)
-        if kinds.get(nid) == 'specglom':
-            # re-entry through Spec(inner).glom(target, scope=S): "alone" is the same re-entry made
-            # from a trivial outer call (it evaluates inside the scope it is given; it is not a
-            # glom() call of its own: no trace of its own, exceptions are not wrapped)
-            c2 = Ctx(0)
-            ns = NestedS(c2, nid, call)
-            outcome_of(lambda: glom.glom(None, glom.Call(ns, args=(glom.T,), kwargs={'scope': glom.S})))
-            o2, exc, val = c2.inner[nid]
-            alone_inner[nid] = (o2, exc)
-            stub_values[nid] = val
-            payload.append({'events': log, 'alone': o2})
-            continue
-        target = dec(call['target'])
-        spec = build(call['spec'], Ctx(0))
-        holder = {}
-
-        def run():
-            holder['v'] = glom.glom(target, spec)
-            return holder['v']
-        o2, exc = outcome_of(run)
-        alone_inner[nid] = (o2, exc)
-        stub_values[nid] = holder.get('v')
-        payload.append({'events': log, 'alone': o})
+        log, _, _ = run_alone(strip_obs(call), 0)
+        val, exc = isolated_nested(nid, call, kinds.get(nid))
+        o2 = outcome_from(val, exc)
+        alone_inner[nid] = (o2, lambda nid=nid, call=call: isolated_nested(nid, call, kinds.get(nid))[1])
+        stub_values[nid] = val
+        call_index[nid] = len(payload)
+        payload.append({'events': log, 'alone': o2})
     # (a) the outer call with real nested calls (not logged this time: fresh caches)
     clear_caches()
     ctx = Ctx(0)
-    o_real = outcome_of(lambda: glom.glom(dec(outer['target']), build(outer['spec'], ctx)))[0]
+    ctx.call_index = call_index
+    o_real = observed_call(ctx, lambda: glom.glom(dec(outer['target']), build(outer['spec'], ctx)))
     pc, tc = snapshot_caches()
-    # the outer call "alone": inner calls replaced by constants
+    # the outer call "alone": inner calls replaced by constants, nobody renders in flight
     sctx = Ctx(0, stubs=alone_inner)
     sctx.stub_values = stub_values
+    sctx.reference = True
     o_stub = outcome_of(lambda: glom.glom(dec(outer['target']), build(outer['spec'], sctx)))[0]
     payload[0] = dict(payload[0], alone=o_stub)
     outs.append(o_real)
@@ -1201,11 +1516,15 @@ def run_nested(case, out, threads_payload, alone_ctxs):
         if 'target' not in call:
             continue
         seen = ctx.inner.get(nid)
+        if seen is None and nid in ctx.unread:      # it failed, nobody read its message as it was: not compared
+            outs.append(payload[len(outs)]['alone'])
+            continue
         outs.append(seen[0] if seen is not None else {'err': ['NotReached', 'the nested call did not run']})
         if seen is None:            # not reached in the real run either way: compare with itself
             payload[len(outs) - 1] = dict(payload[len(outs) - 1], alone=outs[-1])
     out['threads'] = payload
     out['impl'] = {'outs': outs, 'pcache': pc, 'tcache': tc, 'deadlock': False}
+    out['errhist'] = {'ops': ctx.hist, 'ref': ctx.ref}
     return out
 
 
@@ -1216,24 +1535,26 @@ def isolated_inner(nid, d, kw, prefix):
     call of its own -- from a trivial outer call that has nothing but the user's variables in its
     scope (copy / run).  When the running scope is handed over it carries the caller's position
     (`scope[Path]`, the "(at path …)" of error messages), like it carries the caller's mode: the
-    isolated call starts at the same position (`path=prefix`)."""
+    isolated call starts at the same position (`path=prefix`).
+    -> (value, exception); the exception is NOT rendered"""
     import glom
     c2 = Ctx(0)
     how = d['how']
+    d = {k: v for k, v in d.items() if k != 'obs'}
     if how in ('copy', 'run'):
-        r = ReenterFn(c2, nid, dict(d, after=None, catch=False))
-        res = outcome_of(lambda: glom.glom(None, glom.Call(r, args=(glom.T, glom.S)), path=list(prefix), **kw))
+        # (the handler keeps the error: it must not go through the trivial outer call, whose handler
+        # would finalize -- for a class that cannot be re-created: the very object -- with ITS scope)
+        r = ReenterFn(c2, nid, dict(d, after=None, catch=True))
+        raw_call(lambda: glom.glom(None, glom.Call(r, args=(glom.T, glom.S)), path=list(prefix), **kw))
     elif how in ('kwcopy', 'kwrun'):
         r = ReenterFn(c2, nid, dict(d, after=None, catch=False, how='kwcopy'))
         sc = dict(kw.get('scope', {}))
         sc[glom.Path] = list(prefix)
-        res = outcome_of(lambda: r(None, sc))
+        raw_call(lambda: r(None, sc))
     else:
         r = ReenterFn(c2, nid, dict(d, after=None, catch=False))
-        res = outcome_of(lambda: r(None, kw.get('scope', {})))
-    if nid not in c2.inner:
-        raise RuntimeError('isolated inner call %d was not made: %r' % (nid, res))
-    return c2.inner[nid]
+        raw_call(lambda: r(None, kw.get('scope', {})))
+    return isolated_result(c2, nid)
 
 
 class NotExpressible(Exception):
@@ -1247,7 +1568,7 @@ class RSpecOf:
     Coalesce) over `both` / `andThen` / `orElse`, and re-entries made from a custom spec that
     catches the inner failure and then evaluates `after`.  Everything else: NotExpressible."""
 
-    LEAVES = ('path', 'T', 'val', 'y', 'boom', 'sget')
+    LEAVES = ('path', 'T', 'val', 'y', 'boom', 'sget', 'late', 'raiseg')
 
     def __init__(self):
         self.labels = ['<none>']        # label id -> repr of the spec
@@ -1282,6 +1603,10 @@ class RSpecOf:
         if k == 'spec':
             lab = self.label(obj)
             c, ok, v = self.conv(sj[1], target, kw, live, coalesced)
+            return ['sub', lab, c], ok, v
+        if k == 'probe':                      # a custom spec that evaluates its child in a scope of its own
+            lab = self.label(obj)
+            c, ok, v = self.conv(sj[3], target, kw, live, coalesced)
             return ['sub', lab, c], ok, v
         if k == 'dict':
             lab = self.label(obj)
@@ -1368,9 +1693,12 @@ def trace_skeleton(text):
 
 def run_reent(case, out, threads_payload, alone_ctxs):
     """one outer call whose spec makes re-entrant calls with access to the running scope.
-    Observed: the outer call as it is (outcome = value, or class + full rendered message / trace);
+    Observed: the outer call as it is (outcome = value, or class + full rendered message / trace),
+    with every handler on the way rendering / keeping the exception it sees the way the case says;
     expected: the same outer call in which every inner call is made in isolation -- its isolated
-    outcome is a constant.  The inner calls are compared too (as they ran nested / in isolation)."""
+    outcome is a constant, its exception exactly as the isolated call raised it -- and nobody renders
+    an exception in flight.  The inner calls are compared too (as they ran nested / in isolation),
+    and so is every message any handler read on the way (the error history)."""
     import glom
     outer = case['calls'][0]
     kw = call_kw(outer)
@@ -1380,36 +1708,46 @@ def run_reent(case, out, threads_payload, alone_ctxs):
     # the outer call as it is
     clear_caches()
     ctx = Ctx(0)
-    o_real = outcome_of(lambda: glom.glom(dec(outer['target']), build(outer['spec'], ctx), **kw))[0]
+    ctx.call_index = dict({nid: i + 1 for i, (nid, _) in enumerate(inner)}, outer=0)
+    o_real = observed_call(ctx, lambda: glom.glom(dec(outer['target']), build(outer['spec'], ctx), **kw))
     pc, tc = snapshot_caches()
     # every inner call in isolation
     alone_inner, stub_values = {}, {}
     for nid, call in inner:
-        log, _, _ = run_alone(dict(call, scope=ctx.uvars.get(nid) if kinds[nid]['how'] != 'none' else None), 0)
-        o2, exc, val = isolated_inner(nid, kinds[nid], {'scope': ctx.uvars[nid]} if ctx.uvars.get(nid) else {},
-                                      ctx.paths.get(nid, []))
-        alone_inner[nid] = (o2, exc)
-        stub_values[nid] = val
+        log, _, _ = run_alone(dict(strip_obs(call), scope=ctx.uvars.get(nid) if kinds[nid]['how'] != 'none' else None), 0)
+        ikw = {'scope': ctx.uvars[nid]} if ctx.uvars.get(nid) else {}
+        prefix = ctx.paths.get(nid, [])
+        if nid in ctx.uvars:
+            val, exc = isolated_inner(nid, kinds[nid], ikw, prefix)
+            o2 = outcome_from(val, exc)
+            alone_inner[nid] = (o2, lambda nid=nid, ikw=ikw, prefix=prefix: isolated_inner(nid, kinds[nid], ikw, prefix)[1])
+            stub_values[nid] = val
+        else:                       # not reached: nothing to isolate
+            o2 = {'err': ['NotReached', 'the nested call did not run']}
         payload.append({'events': log, 'alone': o2})
     # the outer call with the isolated outcomes as constants
     sctx = Ctx(0, stubs=alone_inner)
     sctx.stub_values = stub_values
+    sctx.reference = True
     o_stub = outcome_of(lambda: glom.glom(dec(outer['target']), build(outer['spec'], sctx), **kw))[0]
     payload[0] = dict(payload[0], alone=o_stub)
     outs = [o_real]
     for i, (nid, call) in enumerate(inner):
         seen = ctx.inner.get(nid)
-        if seen is None:            # not reached: nothing to compare
+        if seen is None and nid in ctx.unread:      # it failed, nobody read its message as it was: not compared
+            outs.append(payload[i + 1]['alone'])
+        elif seen is None:          # not reached: nothing to compare
             outs.append({'err': ['NotReached', 'the nested call did not run']})
             payload[i + 1] = {'events': [], 'alone': outs[-1]}
         else:
             outs.append(seen[0])
     out['threads'] = payload
     out['impl'] = {'outs': outs, 'pcache': pc, 'tcache': tc, 'deadlock': False}
+    out['errhist'] = {'ops': ctx.hist, 'ref': ctx.ref}
     # the same call in the Lean model of the error bookkeeping, when its spec language has it
     try:
         conv = RSpecOf()
-        rs, ok, _ = conv.conv(outer['spec'], dec(outer['target']), kw, True)
+        rs, ok, _ = conv.conv(strip_obs(outer['spec']), dec(outer['target']), kw, True)
         out['rspec'] = {'spec': rs, 'labels': conv.labels, 'errs': [[k, v] for k, v in sorted(conv.errs.items())]}
         if 'err' in o_real:
             out['impl']['skeleton'] = trace_skeleton(o_real['err'][1])
@@ -1472,6 +1810,37 @@ def nested_templates(u):
     out.append(('n2', {'target': tgt, 'spec': ['tuple', [['sset', 'x', ['val', 'outer']], ['nested', 1, inner2], ['dict', [['v', ['T', []]], ['x', ['sget', 'x']]]]]]}))
     out.append(('n3_caught', {'target': tgt, 'spec': ['tuple', [['sset', 'x', ['val', 'outer']], ['nested', 1, inner3], ['dict', [['v', ['T', []]], ['x', ['sget', 'x']]]]]]}))
     out.append(('n3_uncaught', {'target': tgt, 'spec': ['tuple', [['path', 'a'], ['nested', 1, {'target': D(z=1), 'spec': ['tuple', [['path', 'z'], ['nested', 2, {'target': D(yy=2), 'spec': ['tuple', [['path', 'yy'], ['nested', 3, inner_fail]]]}]]]}]]]}))
+    # the three ways the handler of glom() gets hold of the error of an inner call: a copy that carries
+    # the __dict__ (above), a fresh instance (TypeMatchError.__copy__), the error object itself (a
+    # user-defined GlomError whose constructor does not take `args`); errors kept and looked at later
+    inner_tm = {'target': D(p=D(q=3)), 'spec': ['tuple', [['path', 'p'], ['matchd', [['q', 'str']]]]]}
+    inner_odd = {'target': D(p=4), 'spec': ['tuple', [['path', 'p'], ['raiseg', 'bad']]]}
+    inner_rej = {'target': D(p=4), 'spec': ['tuple', [['path', 'p'], ['raiseg', 'ok']]]}
+    out.append(('n1_tm_uncaught', {'target': tgt, 'spec': ['tuple', [['path', 'a'], ['nested', 1, inner_tm]]]}))
+    out.append(('n1_odd_uncaught', {'target': tgt, 'spec': ['tuple', [['path', 'a'], ['nested', 1, inner_odd]]]}))
+    out.append(('n1_rej_uncaught', {'target': tgt, 'spec': ['dict', [['k', ['path', 'a.e']], ['v', ['nested', 1, inner_rej]]]]}))
+    out.append(('n3_odd_uncaught', {'target': tgt, 'spec': ['tuple', [['path', 'a'], ['nested', 1, {'target': D(z=1), 'spec': ['tuple', [['path', 'z'], ['nested', 2, {'target': D(yy=2), 'spec': ['tuple', [['path', 'yy'], ['nested', 3, inner_odd]]]}]]]}]]]}))
+    out.append(('n2_tm_uncaught', {'target': tgt, 'spec': ['tuple', [['path', 'a'], ['nested', 1, {'target': D(z=1), 'spec': ['tuple', [['path', 'z'], ['nested', 2, inner_tm]]]}]]]}))
+    out.append(('n1_kept_late', {'target': tgt, 'spec': ['tuple', [['coalesce', [['tuple', [['path', 'a'], ['nested', 1, inner_fail]]], ['path', 'a.b']]],
+                                                                   ['late', 0], ['path', 'zz.' + ku]]]}))
+    out.append(('n1_kept_late_ok', {'target': tgt, 'spec': ['tuple', [['coalesce', [['tuple', [['path', 'a'], ['nested', 1, inner_rej]]], ['path', 'a.b']]],
+                                                                      ['late', 0], ['path', 'c']]]}))
+    return out
+
+
+def with_obs(rng, sj, counter):
+    """the spec with a handler behaviour (render 0-2 ways; go on as it is / as a copy / keep) on every
+    nested call, and an observation point (probe) around some of its chains and Coalesces"""
+    if not isinstance(sj, list) or not sj:
+        return sj
+    g = ReentGen(rng, 0)
+    if sj[0] in ('nested', 'specglom'):
+        call = dict(sj[2], spec=with_obs(rng, sj[2]['spec'], counter), obs=g.obs())
+        return [sj[0], sj[1], call]
+    out = [with_obs(rng, x, counter) if isinstance(x, list) else x for x in sj]
+    if sj[0] in ('tuple', 'coalesce') and nested_ids(sj, []) and rng.random() < 0.25:
+        counter[0] += 1
+        return ['probe', 100 + counter[0], g.obs(), out]
     return out
 
 
@@ -1687,6 +2056,14 @@ class ReentGen:
         self.target = D(a=D(b=D(c=1, d=2), e=5), o=D(), **{self.ku: D(z=7)})
         self.inner_target = D(p=D(q=3), io=1, **{'i' + self.ku: D(z=8)})
 
+    def obs(self):
+        """what a handler does with the exception it sees: render it (0-2 ways), and let it go on as
+        it is / as a copy / keep it for a later look"""
+        r = self.rng
+        x = r.random()
+        renders = [] if x < 0.25 else [r.choice(RENDERS)] if x < 0.75 else [r.choice(RENDERS), r.choice(RENDERS)]
+        return {'render': renders, 'prop': r.choice(['raise'] * 5 + ['copy', 'keep', 'keep'])}
+
     def ok_spec(self):
         r = self.rng
         return r.choice([['path', 'a.b.c'], ['path', self.ku + '.z'], ['T', [['[', 'a'], ['[', 'e']]],
@@ -1699,6 +2076,7 @@ class ReentGen:
                          ['tuple', [['path', 'a.e'], ['boom']]],
                          ['coalesce', [['path', 'zz'], ['path', 'a.zq']]],
                          ['tuple', [['path', 'a.b'], ['matchd', [['c', 'str']]]]],
+                         ['tuple', [['path', 'a.e'], ['raiseg', 'bad']]], ['raiseg', 'ok'],
                          ['dict', [['k', ['path', 'a.e']], ['m', ['path', 'a.b.zz']]]]])
 
     def inner_spec(self, ok, depth, how):
@@ -1715,6 +2093,7 @@ class ReentGen:
         return r.choice([['path', 'p.nope'], ['path', 'inner-missing'], ['tuple', [['path', 'p'], ['boom']]],
                          ['coalesce', [['path', 'zz'], ['tuple', [['path', 'p'], ['path', 'x.' + self.ku]]]]],
                          ['tuple', [['path', 'p'], ['matchd', [['q', 'str']]]]],
+                         ['tuple', [['path', 'p'], ['raiseg', 'ok']]], ['raiseg', 'bad'],
                          ['T', [['[', 'p'], ['[', 'zz']]]])
 
     inner_target_spec_ok = None
@@ -1727,7 +2106,7 @@ class ReentGen:
         how = r.choice(HOWS)
         ok = r.random() < 0.35
         catch = ok or r.random() < 0.75
-        d = {'point': point, 'how': how, 'catch': catch,
+        d = {'point': point, 'how': how, 'catch': catch, 'obs': self.obs(),
              'inner': {'target': self.inner_target, 'spec': self.inner_spec(ok, depth, how)}}
         if point == 'glomit':
             x = r.random()
@@ -1745,7 +2124,10 @@ class ReentGen:
 
     def wrap(self, node):
         r = self.rng
-        k = r.choice(['dict', 'tuple', 'coalesce', 'spec', 'dict', 'tuple', 'coalesce'])
+        k = r.choice(['dict', 'tuple', 'coalesce', 'spec', 'dict', 'tuple', 'coalesce', 'probe', 'probe'])
+        if k == 'probe':                               # an observation point further up
+            self.nid += 1
+            return ['probe', self.nid, self.obs(), node]
         sib = self.ok_spec() if r.random() < 0.5 else self.fail_spec()
         if k == 'dict':
             items = [['x', node], ['s', sib]]
@@ -1760,6 +2142,8 @@ class ReentGen:
                 steps.append(['y', 1])
             elif x < 0.6:                              # fails in a later chain step
                 steps.append(r.choice([['path', 'later.nope'], ['boom'], ['matchd', [['zz', 'int']]]]))
+            if r.random() < 0.25:                      # a later callable looks at the errors that were kept
+                steps.insert(r.randint(1, len(steps)), ['late', 9])
             return ['tuple', steps]
         if k == 'coalesce':
             alts = [node, sib]
@@ -1888,6 +2272,11 @@ def generate(rng, tier, scale, **focus):
     for rep in range(1 if quick else 5):
         for name, call in nested_templates(fresh()):
             yield {'mode': 'nested', 'calls': [call], 'names': [name]}
+    # --- ... whose callables render / copy / keep the error of the inner call before it goes on
+    counter = [0]
+    for rep in range(4 if quick else 60):
+        for name, call in nested_templates(fresh()):
+            yield {'mode': 'nested', 'calls': [dict(call, spec=with_obs(rng, call['spec'], counter))], 'names': [name + '_obs']}
     # --- re-entrant calls made with access to the running scope
     yield from gen_reent(rng, tier, fresh)
     # --- ... inside scheduled threads
@@ -1981,6 +2370,20 @@ def focus(disagreements, facts_changed):
     return {}
 
 
+def simpler_obs(obs):
+    """what a handler does with the exception it sees, with one simplification"""
+    if not obs:
+        return
+    if obs.get('prop', 'raise') != 'raise':
+        yield dict(obs, prop='raise')
+    r = obs.get('render', [])
+    for i in range(len(r)):
+        yield dict(obs, render=r[:i] + r[i + 1:])
+    for i, h in enumerate(r):
+        if h != 'str':
+            yield dict(obs, render=r[:i] + ['str'] + r[i + 1:])
+
+
 def shrink_spec(sj):
     """specs with one local simplification (a wrapper replaced by one of its children, a chain step
     or dict item or alternative dropped, the parts of a re-entry simplified), at any position"""
@@ -2011,8 +2414,22 @@ def shrink_spec(sj):
         yield sj[1]
         for v2 in shrink_spec(sj[1]):
             yield [k, v2]
+    elif k == 'probe':
+        yield sj[3]
+        for o2 in simpler_obs(sj[2]):
+            yield [k, sj[1], o2, sj[3]]
+        for v2 in shrink_spec(sj[3]):
+            yield [k, sj[1], sj[2], v2]
+    elif k in ('nested', 'specglom'):
+        call = sj[2]
+        for o2 in simpler_obs(call.get('obs')):
+            yield [k, sj[1], dict(call, obs=o2)]
+        for v2 in shrink_spec(call['spec']):
+            yield [k, sj[1], dict(call, spec=v2)]
     elif k == 'reenter':
         d = sj[2]
+        for o2 in simpler_obs(d.get('obs')):
+            yield [k, sj[1], dict(d, obs=o2)]
         if d.get('after') is not None:
             for a2 in ([['path', 'o.om']] if d['after'] != ['path', 'o.om'] else []) + list(shrink_spec(d['after'])):
                 yield [k, sj[1], dict(d, after=a2)]
@@ -2024,7 +2441,13 @@ def shrink_spec(sj):
 
 
 def shrink(case):
-    base = {k: v for k, v in case.items() if not k.startswith('impl') and k != 'threads'}
+    base = {k: v for k, v in case.items() if not k.startswith('impl') and k not in ('threads', 'errhist', 'rspec')}
+    if case['mode'] == 'nested':
+        call = case['calls'][0]
+        for sp in shrink_spec(call['spec']):
+            if nested_ids(sp, []):                 # still a nesting
+                yield dict(base, calls=[dict(call, spec=sp)])
+        return
     if case['mode'] == 'reent':
         call = case['calls'][0]
         if call.get('scope'):
